@@ -99,9 +99,9 @@ theorem count_out_consumed (out : List (Nat × Nat)) (k v : Nat) :
       by_cases hb : b = v
       · subst hb; simp [ih]
       · have : ¬ (a, b) = (a, v) := by simp [hb]
-        simp [List.count_cons, ih, hb]
+        simp [ih, hb]
     · have : ¬ (a, b) = (k, v) := by simp [ha]
-      simp [List.count_cons, ih, ha]
+      simp [ih, ha]
 
 /-- **Union as multisets.**  When the aggregate has ended, the multiset of delivered (source, value) pairs is the
 disjoint union of the sources' yields: each pair occurs as often as the source yielded that value, and every
@@ -262,10 +262,11 @@ theorem c14_drain_blocks_only_for_inflight {c : Cfg} {s : State} (h : Reachable 
   by_cases hcur : s.st j = SSt.cur
   · -- another active source must exist
     have h2 := nWith_upd active s.st j SSt.fin c.n
-    simp [hj, haj, active] at h2
+    rw [haj] at h2
+    simp [hj, active] at h2
     obtain ⟨k, hk, hak⟩ := nWith_exists active (upd s.st j SSt.fin) c.n (by omega)
     have hkj : k ≠ j := by intro h; subst h; simp [active] at hak
-    simp [upd_apply, hkj] at hak
+    simp [hkj] at hak
     refine ⟨k, hk, key k hk hak ?_⟩
     intro hk2
     exact hkj (hi.cur_unique k j hk2 hcur)
